@@ -2,10 +2,7 @@
 
 package flyt
 
-import (
-	"context"
-	"fmt"
-)
+import "context"
 
 // C02 — retry budget and fallback are exact.
 
@@ -31,16 +28,9 @@ func (n *c02Node) Exec(ctx context.Context, p any) (any, error) {
 	vAssert(n.okAt == 0, "no-attempt-after-success")
 	n.calls++
 	if vNondet[bool]("fail") {
-		switch vChoice("errForm", 3) {
-		case 0:
-			n.lastErr = vNewErr()
-		case 1:
-			// an attempt that failed because of its OWN inner timeout / cancellation: still just a failed attempt
-			n.lastErr = fmt.Errorf("inner call: %w", context.Canceled)
-			vCover("attempt-error-wraps-context.Canceled")
-		default:
-			n.lastErr = fmt.Errorf("inner call: %w", context.DeadlineExceeded)
-		}
+		// an attempt may fail with any kind of error value; it is still just a failed attempt
+		n.lastErr = vFailure("exec")
+		vCover("attempt-error-forms")
 		if n.firstErr == nil {
 			n.firstErr = n.lastErr
 		}
@@ -54,7 +44,7 @@ func (n *c02Node) Exec(ctx context.Context, p any) (any, error) {
 func (n *c02Node) ExecFallback(p any, err error) (any, error) {
 	n.fb++
 	vAssert(vSame(p, n.prepTok), "fallback-gets-prep-value")
-	vAssert(err == n.lastErr, "fallback-gets-last-error")
+	vAssert(vSame(err, n.lastErr), "fallback-gets-last-error")
 	if n.fbMode == 1 {
 		n.fbErr = vNewErr()
 		return nil, n.fbErr
